@@ -14,6 +14,67 @@ def strip_ref(e):
     return e
 
 
+LEN_DEPENDENT = ("len", "is_empty", "truncate", "drain", "extend_from_slice", "push", "pop", "clone", "into_boxed_slice", "resize", "split_off",
+                 "as_slice", "as_mut_slice", "deref", "deref_mut", "iter", "iter_mut", "reserve", "reserve_exact", "try_reserve", "shrink_to_fit",
+                 "shrink_to", "to_vec", "extend", "insert", "remove", "retain", "dedup", "append", "index", "index_mut", "spare_capacity_mut",
+                 "split_at_spare_mut", "as_ref", "as_mut", "borrow", "into_iter", "first", "last", "get", "copy_within", "fill", "extend_from_within")
+
+
+def shared_vec_root(e):
+    """e denotes the Vec<u8> kept inside a control block (its `len` is dead state: the handles carry the length), directly or
+    after it was taken out with mem::replace / mem::take"""
+    e = strip_ref(e)
+    for _ in range(4):
+        if isinstance(e, tuple) and e and e[0] == "call" and e[1].rsplit("::", 1)[-1] in ("replace", "take") and e[2]:
+            e = strip_ref(e[2][0])
+            continue
+        break
+    return isinstance(e, tuple) and len(e) == 3 and e[0] == "field" and e[2] == "vec" and isinstance(e[1], tuple)
+
+
+def dead_len(res, facts):
+    """(iv) the length of the Vec stored in a control block is never relied upon: the handles carry their own lengths and only
+    `reserve_inner` refreshes it (right before it grows the Vec).  Any length-dependent Vec operation on it - truncate, drain, len,
+    a slice view, reserve - must be dominated by a `set_len` on the same Vec in the same function."""
+    n = 0
+    for b in facts.fn_bodies():
+        if facts.is_test(b):
+            continue
+        eb = ExprBuilder(b, facts, inline=True)
+        cfg = cfg_of(b)
+        sets, uses = [], []
+        for bi, t in b.calls():
+            if b.blocks[bi]["cleanup"]:
+                continue
+            fn = callee(t)
+            if fn is None or not t["args"]:
+                continue
+            rp = (fn.get("res") or fn).get("path", "")
+            if "Vec" not in rp and "vec" not in rp and "slice" not in rp:
+                continue
+            recv = canon(eb.operand(t["args"][0], (bi, len(b.blocks[bi]["stmts"]))))
+            if not shared_vec_root(recv):
+                continue
+            R = strip_ref(recv)
+            if fn["name"] == "set_len":
+                sets.append((bi, R))
+            elif fn["name"] in LEN_DEPENDENT:
+                uses.append((bi, R, fn["name"]))
+        cnt = {}
+        for (bi, R, nm) in uses:
+            n += 1
+            k0 = "%s|shared Vec.%s" % (b.id, nm)
+            c = cnt.get(k0, 0)
+            cnt[k0] = c + 1
+            key = k0 + ("#%d" % c if c else "")
+            if any(R2 == R and sb != bi and cfg.dominates(sb, bi) for (sb, R2) in sets):
+                res.ok(key, b.loc(bi), "the control block's Vec is given its length (set_len) before `%s` relies on it" % nm, nontrivial=True)
+            else:
+                res.bad(key, b.loc(bi), "`%s` relies on the length of the Vec stored in the control block, which no handle keeps up to date "
+                                        "(only set_len right before growing refreshes it): the bytes a handle appended later are not counted" % nm)
+    return n
+
+
 def run(facts):
     res = Result("A9", "Vec conversions copy the view back to the buffer start before shrinking to the view's length; handles rebuilt over the "
                        "whole buffer re-apply the front offset with the same operand")
@@ -142,4 +203,6 @@ def run(facts):
             else:
                 res.ok(key, b.loc(bi), "advance(off) with the same off follows on every path", nontrivial=True)
     res.floor("copyback_and_reoffset_sites", n, 6)
+    nd = dead_len(res, facts)
+    res.floor("length-dependent uses of a control block's Vec", nd, 1)
     return res
